@@ -1077,9 +1077,6 @@ package engine
 
 //@ -- the parser's entry point, declared only so that ReadTerm can name its results (bind); nothing is assumed about it:
 //@ -- no ensures, no modifies (the heap is havocked at its call sites, as for any unknown callee)
-//@ func (*Parser).Term
-//@   nosafety
-
 //@ func ReadTerm
 //@   property C19
 //@   requires vm != nil
@@ -1164,6 +1161,10 @@ package engine
 //@ extern reflect.Value.Len
 //@   pure
 //@   deterministic
+//@   ensures result >= 0
+//@ extern reflect.Value.Index
+//@   pure
+//@   deterministic
 
 //@ -- the constructors a double-quoted literal goes through (parser) are the ones a Go string goes through (termOf)
 //@ func CharList
@@ -1215,6 +1216,11 @@ package engine
 //@   ensures[floats] kind == 14 && finite(reflect.Value.Float(o)) ==> err == nil && result is Float && same(result as Float, reflect.Value.Float(o))
 //@   ensures[non-finite-floats-are-refused] kind == 14 && !finite(reflect.Value.Float(o)) ==> err != nil
 //@   ensures[strings-are-double-quoted-literals] kind == 24 ==> err == nil && result == dq(p.doubleQuotes, reflect.Value.String(o))
+//@   ensures[every-other-kind-of-value-is-refused] !(kind == 2 || kind == 3 || kind == 4 || kind == 5 || kind == 6 || kind == 13 || kind == 14 || kind == 17 || kind == 23 || kind == 24) ==> err != nil
+//@   at-call (*Parser).termOf requires[each-element-is-converted-at-its-own-position-under-the-same-flag] a0 == p && a1 == reflect.Value.Index(o, local(i, int))
+//@   bind et, eerr = (*Parser).termOf#1
+//@   loop 1 maintains[no-element-is-passed-over-after-a-failed-conversion] called(eerr) && eerr == nil
+//@   at-call List requires[a-list-of-as-many-elements-as-the-go-value-has] len(a0) == reflect.Value.Len(o)
 
 //@ func (*Parser).term0
 //@   property C15
@@ -1222,6 +1228,33 @@ package engine
 //@   nosafety
 //@   at-call CharList requires[under-chars] p.doubleQuotes == doubleQuotesChars
 //@   at-call CodeList requires[under-codes] p.doubleQuotes == doubleQuotesCodes
+//@   at-call CharList requires[the-text-between-the-quotes] a0 == unDoubleQuote(local(t, Token).val)
+//@   at-call CodeList requires[the-text-between-the-quotes] a0 == unDoubleQuote(local(t, Token).val)
+
+//@ -- placeholder accounting: a placeholder takes the first argument that is left (never one when none is left), and a
+//@ -- term that leaves arguments over is an error
+//@ func (*Parser).SetPlaceholder
+//@   property C15
+//@   requires p != nil
+//@   nosafety
+//@   bind at, aerr = (*Parser).termOf#1
+//@   at-store Parser.placeholder requires[the-placeholder-atom-given] target == p && v == placeholder
+//@   at-store Parser.args requires[one-term-per-argument] target == p && len(v) == len(args)
+//@   at-call (*Parser).termOf requires[converted-under-this-parser-s-flag] a0 == p
+//@   loop 1 maintains[no-argument-is-passed-over-after-a-failed-conversion] called(aerr) && aerr == nil
+
+//@ func (*Parser).term0Atom
+//@   property C15
+//@   requires p != nil
+//@   nosafety
+//@   at-store Parser.args requires[a-placeholder-takes-the-first-remaining-argument] target == p && len(p.args) > 0 && local(t, Term) == p.args[0]
+//@   at-store Parser.args requires[the-other-arguments-remain-in-order] target == p && len(p.args) > 0 && v == p.args[1:]
+
+//@ func (*Parser).Term
+//@   property C15
+//@   requires p != nil
+//@   nosafety
+//@   ensures[arguments-left-over-are-an-error] result1 == nil ==> len(p.args) == 0
 
 //@ ---------------------------------------------------------------- relational built-ins, deterministic modes (C16)
 
@@ -1606,22 +1639,48 @@ package engine
 //@       forall j int :: 0 <= j && j < n ==> t.clauses[pi].clauses[ite(was, before, 0) + j].raw == old(t.buf[j].raw) && t.clauses[pi].clauses[ite(was, before, 0) + j].bytecode == old(t.buf[j].bytecode)
 //@   ensures[earlier-clauses-keep-their-place] result == nil && n > 0 && was ==> forall j int :: 0 <= j && j < before ==> t.clauses[pi].clauses[j].raw == old(t.clauses[pi].clauses[j].raw)
 //@   ensures[the-buffer-keeps-its-own-array] result == nil && n > 0 ==> backing(t.clauses[pi].clauses) != backing(t.buf)
+//@   ensures[a-predicate-first-seen-here-has-no-declared-properties] result == nil && n > 0 && !was ==>
+//@       !t.clauses[pi].dynamic && !t.clauses[pi].public && !t.clauses[pi].multifile && !t.clauses[pi].discontiguous
+//@   ensures[declarations-made-earlier-in-the-text-are-kept] n > 0 && was ==> t.clauses[pi] == old(t.clauses[pi]) &&
+//@       t.clauses[pi].dynamic == old(t.clauses[pi].dynamic) && t.clauses[pi].public == old(t.clauses[pi].public) &&
+//@       t.clauses[pi].multifile == old(t.clauses[pi].multifile) && t.clauses[pi].discontiguous == old(t.clauses[pi].discontiguous)
 
 //@ -- the per-term loop of a load (parsing, expansion, directives): assumed not to touch the procedure table
 //@ -- ("side-effect-free directives" of the property statement) and to keep the text's invariants
 //@ func (*VM).compile
 //@   property C20
 //@   assumed-post
-//@   checks only at-call at-call-missing
+//@   checks only at-call at-call-missing maintains nok
 //@   nosafety
 //@   modifies heap
 //@   loop 1 invariant true
 //@   at-call (*Parser).Term#1 requires[each-clause-is-read-with-its-own-variables] len(local(p, *Parser).Vars) == 0
+//@   bind rt, perr = (*Parser).Term#1
+//@   bind pi1, arg1, pierr = piArg#1
+//@   bind pi2, arg2, pierr2 = piArg#2
+//@   bind derr = (*VM).directive#1
+//@   bind ferr = (*text).flush#1
+//@   bind cs, cerr = compile#1
+//@   at-call compile requires[a-run-of-clauses-ends-where-the-predicate-changes] len(text.buf) == 0 || text.buf[0].pi == local(pi, procedureIndicator)
+//@   at-call append requires[the-new-clauses-follow-the-run-in-source-order] cerr == nil && a0 == text.buf && a1 == cs
+//@   bind grown = append#1
+//@   at-store text.buf requires[the-run-grows-by-the-new-clauses] called(grown) && v == grown && target == text
+//@   at-call dynamic requires[the-head-of-a-rule-and-the-goal-of-a-directive-are-the-first-argument] a0 == 0
+//@   loop 1 maintains[no-term-is-passed-over-after-an-error] called(perr) && perr == nil && called(pierr) && pierr == nil && (called(pierr2) ==> pierr2 == nil) &&
+//@       (called(derr) ==> derr == nil) && (called(ferr) ==> ferr == nil) && (called(cerr) ==> cerr == nil)
+//@   -- `assumed-post` keeps every `ensures` of this function an assumption of its callers; what the load reports is therefore
+//@   -- stated as `nok` clauses (the function has no continuation parameter, so they are obligations of every return)
+//@   nok[a-syntax-error-fails-the-load] called(perr) && perr != nil ==> result == perr
+//@   nok[a-clause-that-is-not-callable-fails-the-load] (called(pierr) && pierr != nil ==> result == pierr) && (called(pierr2) && pierr2 != nil ==> result == pierr2) &&
+//@       (called(cerr) && cerr != nil ==> result == cerr)
+//@   nok[a-predicate-whose-clauses-are-separated-fails-the-load] called(ferr) && ferr != nil ==> result == ferr
+//@   nok[a-directive-that-fails-fails-the-load] called(derr) && derr != nil ==> result == derr
 //@   ensures[directives-do-not-define-procedures] vm.procedures == old(vm.procedures) && forall q procedureIndicator :: has(vm.procedures, q) == old(has(vm.procedures, q)) && vm.procedures[q] == old(vm.procedures[q])
 //@   ensures[text-invariants] result == nil ==> text.clauses != nil &&
 //@       (forall q procedureIndicator :: has(text.clauses, q) ==> text.clauses[q] != nil) &&
 //@       (forall q procedureIndicator :: has(text.clauses, q) ==> backing(text.clauses[q].clauses) != backing(text.buf) || backing(text.buf) == nil)
 
+//@ -- named so that its results can be bound in VM.compile; nothing is claimed about it (any result, any effect)
 //@ func (*VM).Compile
 //@   property C13 C20
 //@   requires vm != nil
@@ -1635,6 +1694,10 @@ package engine
 //@   bind gok, gerr = (*Promise).Force#1
 //@   ensures[an-error-or-a-cancellation-of-an-initialization-goal-is-reported] called(gerr) && gerr != nil ==> result == gerr
 //@   loop 2 maintains[no-initialization-goal-is-passed-over-after-an-error-or-a-failure] called(gerr) && gerr == nil && gok
+//@   at-call append requires[only-a-multifile-predicate-is-extended-by-a-later-load] local(existing, *userDefined).multifile && local(u, *userDefined).multifile
+//@   at-call append requires[the-clauses-of-a-later-load-follow-the-earlier-ones-in-source-order] a0 == local(existing, *userDefined).clauses && a1 == local(u, *userDefined).clauses
+//@   bind merged = append#1
+//@   at-store userDefined.clauses requires[the-extended-list-becomes-the-definition-of-the-multifile-predicate] called(merged) && v == merged && target == local(existing, *userDefined)
 
 //@ func WriteTerm
 //@   trusted
@@ -1666,20 +1729,47 @@ package engine
 //@   resolves-before-inspecting
 //@ func newExistentialVariablesSet
 //@   property C11
-//@   trusted
+//@   nosafety
+//@   modifies nothing
+//@   trusted-frame
 //@   resolves-before-inspecting
+//@   loop 1 invariant true
+//@   loop 2 invariant true
+//@   bind rc = (*Env).Resolve#1
+//@   at-call (*Env).Resolve requires[the-term-is-inspected-in-the-given-environment] a0 == env && a1 == local(t, Term)
+//@   at-call newVariableSet requires[only-the-variables-of-the-first-argument-of-a-caret-term-are-quantified] Compound.Functor(rc as Compound) == atomCaret && Compound.Arity(rc as Compound) == 2 &&
+//@       a0 == Compound.Arg(rc as Compound, 0) && a1 == env
+//@   at-call append requires[the-search-goes-on-in-the-goal-under-the-quantifier] len(a1) == 1 && a1[0] == Compound.Arg(rc as Compound, 1)
 //@ func iteratedGoalTerm
 //@   property C11
-//@   trusted
+//@   nosafety
 //@   resolves-before-inspecting
+//@   loop 1 invariant true
+//@   bind rc = (*Env).Resolve#1
+//@   at-call (*Env).Resolve requires[the-term-is-inspected-in-the-given-environment] a0 == env && a1 == local(t, Term)
+//@   at-call Compound.Arg requires[the-goal-under-a-quantifier-is-the-second-argument-of-the-caret-term] a0 == (rc as Compound) && a1 == 1
+//@   ensures[the-result-is-not-a-caret-term-any-more] !(resolve(env, result) is Compound && Compound.Functor(resolve(env, result) as Compound) == atomCaret && Compound.Arity(resolve(env, result) as Compound) == 2)
 //@ func newVariableSet
 //@   property C11
-//@   trusted
+//@   nosafety
+//@   modifies nothing
+//@   trusted-frame
 //@   resolves-before-inspecting
+//@   loop 1 invariant true
+//@   bind rt = (*Env).Resolve#1
+//@   bind pushed = append#1
+//@   at-call (*Env).Resolve requires[the-term-is-inspected-in-the-given-environment] a0 == env && a1 == local(t, Term)
+//@   loop 2 invariant[the-arguments-of-a-compound-are-put-on-the-worklist-from-the-first-one-on] local(i, int) == 0 || called(pushed)
+//@   at-call append requires[the-i-th-argument-goes-on-the-worklist] len(a1) == 1 && a1[0] == Compound.Arg(rt as Compound, i)
+//@   ensures[a-new-set] fresh(result)
 //@ func newFreeVariablesSet
 //@   property C11
-//@   trusted
+//@   nosafety
 //@   resolves-before-inspecting
+//@   loop 1 invariant[nothing-is-free-before-the-goal-s-variables-are-examined] forall x Variable :: !has(fv, x)
+//@   at-call newVariableSet requires[the-variables-of-the-goal-and-of-the-template-in-the-given-environment] (a0 == t || a0 == param(1)) && a1 == env
+//@   at-call newExistentialVariablesSet requires[the-quantified-variables-of-the-goal-in-the-given-environment] a0 == t && a1 == env
+//@   loop 2 invariant[no-variable-of-the-template-and-no-quantified-variable-is-free] forall x Variable :: has(fv, x) ==> !has(bv, x)
 //@ func variant
 //@   property C11
 //@   nosafety
@@ -1693,6 +1783,13 @@ package engine
 //@   loop 1 maintains[a-compound-is-matched-only-by-a-compound-of-the-same-name-and-arity] rx is Compound ==>
 //@       ry is Compound && Compound.Functor(rx as Compound) == Compound.Functor(ry as Compound) && Compound.Arity(rx as Compound) == Compound.Arity(ry as Compound)
 //@   loop 1 maintains[an-atomic-term-is-matched-only-by-itself] !(rx is Variable) && !(rx is Compound) ==> rx == ry
+//@   loop 1 maintains[the-two-sides-of-the-pair-taken-from-the-worklist-are-compared] rx == resolve(env, xy[0]) && ry == resolve(env, xy[1])
+//@   bind pushed = append#1
+//@   loop 2 invariant[the-arguments-are-put-on-the-worklist-from-the-first-one-on] local(i, int) == 0 || called(pushed)
+//@   ensures[says-no-only-after-comparing-a-pair] !result ==> called(rx) && called(ry)
+//@   ensures[says-no-to-a-compound-only-against-a-different-name-or-arity-or-a-non-compound] !result && rx is Compound && ry is Compound ==>
+//@       Compound.Functor(rx as Compound) != Compound.Functor(ry as Compound) || Compound.Arity(rx as Compound) != Compound.Arity(ry as Compound)
+//@   ensures[says-no-to-an-atomic-term-only-against-a-different-term] !result && !(rx is Variable) && !(rx is Compound) ==> rx != ry
 
 //@ func (*clause).compileBody
 //@   property C03 C10
@@ -1703,10 +1800,15 @@ package engine
 //@ func renamedCopy
 //@   property C10 C11
 //@   assumed-post
-//@   checks only at-call at-call-missing
+//@   checks only at-call at-call-missing nok maintains
 //@   nosafety
 //@   modifies nothing
 //@   at-call renamedCopy requires[every-part-of-the-term-is-copied-under-the-same-renaming-and-environment] a1 == local(copied, map[termID]Term) && a2 == env
+//@   bind lc, lerr = renamedCopy#1
+//@   at-call id requires[the-term-is-looked-up-and-recorded-after-following-the-bindings-in-force] a0 == resolve(env, param(0))
+//@   nok[the-copy-of-a-variable-is-the-one-recorded-for-it-so-that-all-its-occurrences-get-the-same-new-variable] resolve(env, param(0)) is Variable && result1 == nil ==>
+//@       has(local(copied, map[termID]Term), id(resolve(env, param(0)))) && local(copied, map[termID]Term)[id(resolve(env, param(0)))] == result0
+//@   loop 1 maintains[each-element-of-a-list-is-replaced-by-its-own-copy] called(lc) && local(l, list)[local(i, int)] == lc
 //@   ensures result1 == nil ==> detached(result0)
 
 //@ func FindAll
@@ -2003,6 +2105,8 @@ package engine
 //@   ensures[a-file-that-cannot-be-opened-is-an-error] oerr != nil ==> result == oerr
 //@   ensures[a-load-that-failed-or-was-cancelled-leaves-no-loaded-mark] called(cerr) && cerr != nil ==> result == cerr && !has(vm.loaded, f)
 //@   ensures[a-loaded-file-is-marked] called(cerr) && cerr == nil ==> result == nil
+//@   ensures[a-file-not-yet-loaded-is-loaded] oerr == nil && !old(has(vm.loaded, f)) ==> called(cerr)
+//@   ensures[a-file-already-loaded-is-not-loaded-again] oerr == nil && old(has(vm.loaded, f)) ==> !called(cerr) && result == nil
 
 //@ ---------------------------------------------------------------- the lexer's table of one-character tokens (C05)
 
@@ -2076,6 +2180,19 @@ package engine
 //@   loop 1 invariant true
 //@   loop 2 invariant true
 //@   loop 1 maintains[every-group-of-solutions-becomes-an-alternative] called(grp)
+//@   at-call Delay requires[every-group-is-offered-to-the-caller] a0 == ks
+//@   at-call variant requires[each-remaining-solution-s-witness-is-compared-with-the-witness-of-the-group-s-first-solution] a0 == ww && a1 == w
+//@   at-call append#1 requires[a-variant-s-witness-joins-the-group] a0 == wList && len(a1) == 1 && a1[0] == ww
+//@   at-call append#2 requires[a-variant-s-template-instance-joins-the-group-at-the-end] a0 == tList && len(a1) == 1 && a1[0] == tt
+
+//@ func collectionOf$2$1
+//@   property C11
+//@   nosafety
+//@   trusted-frame
+//@   checks only at-call at-call-missing
+//@   loop 1 invariant true
+//@   at-call (*Env).Unify requires[the-free-variables-of-the-goal-are-bound-to-the-witness-of-each-solution-of-the-group] a1 == witness && a2 == w
+//@   at-call engine.Unify requires[the-group-is-unified-with-the-caller-s-result-for-the-caller-s-continuation] a2 == instances && a3 == k
 
 //@ func (*VM).directive
 //@   property C13 C20
